@@ -1634,6 +1634,30 @@ func (p *pkgCtx) rewriteConcurrency(fc *fileCtx) {
 			// the function value and the arguments of a go statement are evaluated when the
 			// statement executes, not when the goroutine starts: bind them first
 			//   go f(a, b)  ->  func() { vsimF, vsimA0, vsimA1 := f, a, b; vsched.Go(func() { vsimF(vsimA0, vsimA1) }) }()
+			// go panic(v) / go println(...): a built-in is no function value; bind the arguments only
+			if id, ok := x.Call.Fun.(*ast.Ident); ok && id.Obj == nil && (id.Name == "panic" || id.Name == "print" || id.Name == "println") {
+				if len(x.Call.Args) == 0 {
+					fc.repl(x.Go, x.Call.Pos(), "vsched.Go(func() { ")
+					fc.ins(x.Call.End(), " })", 6)
+					break
+				}
+				var ns []string
+				for i := range x.Call.Args {
+					ns = append(ns, fmt.Sprintf("vsimA%d", i))
+				}
+				dots := ""
+				if x.Call.Ellipsis.IsValid() {
+					dots = "..."
+				}
+				fc.repl(x.Go, x.Call.Lparen+1, "func() { "+strings.Join(ns, ", ")+" := ")
+				end := "; vsched.Go(func() { " + id.Name + "(" + strings.Join(ns, ", ") + dots + ") }) }()"
+				if x.Call.Ellipsis.IsValid() {
+					fc.repl(x.Call.Ellipsis, x.Call.Rparen+1, end)
+				} else {
+					fc.repl(x.Call.Rparen, x.Call.Rparen+1, end)
+				}
+				break
+			}
 			names := []string{"vsimF"}
 			call := "vsimF("
 			for i := range x.Call.Args {
